@@ -67,7 +67,9 @@ pub fn check(r: &ExecResult, reducers: u32, mws: u32, subs: &[u32], added: (Opti
         // completeness
         let call = calls(r, "dispatch").find(|c| c.a as u32 == a).map(|c| c.i).unwrap_or(usize::MAX);
         let has = |kind: &str, comp: u32| b.iter().any(|c| c.kind == kind && c.comp == comp);
-        let notifies = b.iter().filter(|c| c.kind == "reduce").last().map(|c| c.x == 0).unwrap_or(false);
+        // mixed Dispatch/Keep chains are left unspecified: only demand the notify phase when
+        // every reducer of the chain answered Dispatch
+        let notifies = b.iter().any(|c| c.kind == "reduce") && b.iter().filter(|c| c.kind == "reduce").all(|c| c.x == 0);
         let mut red: Vec<(u32, bool)> = (0..reducers).map(|i| (i, true)).collect();
         if let Some(x) = added.0 {
             red.push((x, false));
